@@ -472,6 +472,7 @@ pub fn run_stall(focus: &'static str, seed: u64, index: u64) -> CaseOut {
     let sampler = {
         let (cache, stop, violations) = (sut.cache.clone(), stop.clone(), violations.clone());
         thread::spawn(move || {
+            rt::register_helper_thread();
             let mut samples = 0u64;
             while !stop.load(Ordering::Relaxed) {
                 let summary = cache.stats_summary();
@@ -596,7 +597,7 @@ pub fn run_stress(focus: &'static str, seed: u64, index: u64, args: &Args) -> Ca
     let sut = Sut::new(sutcfg);
     let marks = sut.marks;
     let stop = Arc::new(AtomicBool::new(false));
-    let advancer = { let (clock, stop) = (sut.clock.clone(), stop.clone()); thread::spawn(move || { while !stop.load(Ordering::Relaxed) { clock.advance(NS / 3); thread::sleep(Duration::from_micros(200)); } }) };
+    let advancer = { let (clock, stop) = (sut.clock.clone(), stop.clone()); thread::spawn(move || { rt::register_helper_thread(); while !stop.load(Ordering::Relaxed) { clock.advance(NS / 3); thread::sleep(Duration::from_micros(200)); } }) };
     let finished = Arc::new(AtomicU64::new(0));
     let longest = Arc::new(AtomicU64::new(0));
     let mut handles = Vec::new();
